@@ -33,6 +33,7 @@ class Analysis:
     def __init__(self, w, bodies, info):
         self.bodies = bodies
         self.info = {fi["qual"]: fi for fi in info}
+        self.escaping = sorted(w.escaping)
 
     def fun(self, q, avs, chain):
         fi = self.info[q]
@@ -57,6 +58,11 @@ class Analysis:
             for i, r in enumerate(s[1]):
                 b[r] = aget(ac, i)
             return b
+        if k == "calldyn":
+            b = dict(a)
+            for r in s[1]:
+                b[r] = (True, True)
+            return b
         if k == "seq":
             acc = None
             for x in s[1]:
@@ -78,6 +84,9 @@ class Analysis:
         fi = self.info[q]
         mask = fi["mask"] if mask is None else mask
         try:
+            # Model/Effects.v dyn_ok: every candidate callee of a run-time callable is verified with all formals tainted
+            for g in self.escaping:
+                self.fun(g, [(True, True)] * len(self.info[g]["params"]), ["<run-time callable>:candidate"])
             self.fun(q, [(b, b) for b in mask], [])
             return None
         except Fail as e:
